@@ -15,7 +15,7 @@ CFG = dict(
                "modelled with EVERY Go slice expression and fixed-width read a partial operation that can panic — return a value or an error for EVERY byte string, never a panic "
                "(C08_ssz_*_never_panics, by induction over the dynamic-list loop for any claimed length and any offsets; UnmarshalDynamic alone DOES panic on a short source and is "
                "safe only behind DecodeDynamicLength: both halves proved); an accepted message obeys the size limits (<= 13 signers / justifications / partial signatures, 56-byte ids, "
-               "item <= 65536, full data <= 5243144, data <= 6291829); round trips decode(encode m) = m for every well-formed SSVMessage, qbft.Message (three offsets, identifier, both dynamic justification lists) and SignedPartialSignatureMessage; tied by the "
+               "item <= 65536, full data <= 5243144, data <= 6291829); round trips decode(encode m) = m for every well-formed SSVMessage, qbft.Message (three offsets, identifier, both dynamic justification lists), qbft.SignedMessage (signature, signers, embedded message, full data) and SignedPartialSignatureMessage; tied by the "
                "regenerated literal/operator lists of the generated decoders and helpers (C08_tie_ssz_*) and engine `ssz` (real commons.DecodeNetworkMsg / queue.DecodeSSVMessage / "
                "spec Decode vs model on valid encodings and targeted malformations, panic oracle). PARTIAL: the remaining byte-level decoders (JSON, base64, RLP, "
                "libp2p envelopes), hanging and unbounded allocation are not modelled; they are exercised by a malformed-byte stream (fuzzing) through "
